@@ -196,6 +196,71 @@ M = {
         """            [self.source_of[graph]],
             lambda nd: (a._op for a in (list(nd.dependencies)[:1] if nd.op_type.identifier == "Scan" else nd.dependencies)),
             collect_arguments,""")]),
+    # ---- round 6 (C12): remnants of an earlier build of the same objects under other names / companions
+    "inline-node-caches-its-protos": (["C12"], [("src/spox/_inline.py",
+        """        inner_renames: Dict[str, str] = {}
+        inner_node_renames: Dict[str, str] = {}
+""",
+        """        _key = (scope.node[self], tuple(sorted((i.domain, i.version) for i in self.model.opset_import)))
+        _cache = self.__dict__.setdefault("_to_onnx_cache", {})
+        if _key in _cache:
+            return [onnx.NodeProto.FromString(b) for b in _cache[_key]]
+        inner_renames: Dict[str, str] = {}
+        inner_node_renames: Dict[str, str] = {}
+"""), ("src/spox/_inline.py",
+        """                    )
+                )
+        return nodes
+""",
+        """                    )
+                )
+        _cache[_key] = [n.SerializeToString() for n in nodes]
+        return nodes
+""")]),
+    "inline-weakkey-cache-by-node-name-opsets": (["C12"], [("src/spox/_inline.py",
+        """class _Inline(_InternalNode):
+""",
+        """import weakref
+
+_INLINE_PROTOS = weakref.WeakKeyDictionary()
+
+
+class _Inline(_InternalNode):
+"""), ("src/spox/_inline.py",
+        """        inner_renames: Dict[str, str] = {}
+        inner_node_renames: Dict[str, str] = {}
+""",
+        """        _key = (scope.node[self], tuple(sorted((i.domain, i.version) for i in self.model.opset_import)))
+        _cache = _INLINE_PROTOS.setdefault(self, {})
+        if _key in _cache:
+            return [onnx.NodeProto.FromString(b) for b in _cache[_key]]
+        inner_renames: Dict[str, str] = {}
+        inner_node_renames: Dict[str, str] = {}
+"""), ("src/spox/_inline.py",
+        """                    )
+                )
+        return nodes
+""",
+        """                    )
+                )
+        _cache[_key] = [n.SerializeToString() for n in nodes]
+        return nodes
+""")]),
+    "node-proto-cached-on-node": (["C12", "C03"], [("src/spox/_node.py",
+        """        assert self.op_type.identifier
+        input_names = [""",
+        """        assert self.op_type.identifier
+        if not self.subgraphs and getattr(self, "_proto_cache", None) is not None and self._proto_cache[0] == scope.node[self]:
+            return [onnx.NodeProto.FromString(self._proto_cache[1])]
+        input_names = ["""), ("src/spox/_node.py",
+        """                node_proto.attribute.append(attr_proto)
+
+        return [node_proto]""",
+        """                node_proto.attribute.append(attr_proto)
+
+        if not self.subgraphs:
+            self.__dict__["_proto_cache"] = (scope.node[self], node_proto.SerializeToString())
+        return [node_proto]""")]),
 }
 
 
